@@ -82,6 +82,10 @@ def _index_expected(ttm, d, spec):
                     ops.append((net.atom_tensor(sit.sp, f"e[{act[1]}]", [sz]), l))
                     res.append(None)
                 elif act[0] == "slice":
+                    from .torchmodel import userslice_is_full
+                    if userslice_is_full(sit.facts if hasattr(sit, "facts") else out.facts, act[1]):
+                        res.append(l)       # on this path the caller's slice is slice(None, None, None)
+                        continue
                     nl = next(L)
                     ops.append((net.atom_tensor(sit.sp, f"sel[{act[1]}]", [P.atom(f"|{act[1]}|"), sz]), nl + l))
                     res.append(nl)
